@@ -111,6 +111,37 @@ Example any_stack_nonvacuous :
   [ODone; ODone; OVal 2; OTags [(2, 2)]; OQuery [(1, (2, [(2, 2)]))]; ODone; ONotFound; OBulk [0; 4]; ODone; OQuery [(2, (3, [(1, 0)]))]].
 Proof. vm_compute. repeat split. Qed.
 
+(* ---------- provider level ---------- *)
+(* the in-memory provider follows the provider-level contract (several named stores, OpenStore / SetStoreConfig /
+   GetStoreConfig / GetOpenStores / Provider.Close / Store.Close, with Close deleting the store) for every scenario
+   from every provider state *)
+Theorem mem_provider_refines : forall (ops : list pop) (p : pstate),
+  prun false (mem_step true) p ops = prun false (spec_step false) p ops.
+Proof. intros ops p. revert p. induction ops as [|o r IH]; intros p; [reflexivity|].
+  assert (E : pstep false (mem_step true) p o = pstep false (spec_step false) p o).
+  { destruct o; cbn [pstep]; try reflexivity. destruct (plookup p n) as [s|]; [|reflexivity]. destruct (ss_open s); [|reflexivity].
+    rewrite mem_step_spec. reflexivity. }
+  cbn [prun]. rewrite E. destruct (pstep false (spec_step false) p o) as [p1 x]. rewrite IH. reflexivity. Qed.
+Print Assumptions mem_provider_refines.
+
+(* stores of one provider do not influence each other *)
+Theorem provider_stores_independent : forall persist sstep p n o n',
+  n' <> n -> plookup (fst (pstep persist sstep p (PStore n o))) n' = plookup p n'.
+Proof. intros persist sstep p n o n' Hne. cbn [pstep]. destruct (plookup p n) as [s|]; [|reflexivity]. destruct (ss_open s); [|reflexivity].
+  destruct (sstep (ss_data s) o) as [d x]. cbn [fst]. unfold pset. cbn [plookup]. destruct (N.eqb_spec n' n); [contradiction|].
+  clear - Hne. induction p as [|[n0 s0] r IH]; cbn; [reflexivity|]. destruct (N.eqb_spec n n0) as [->|H0].
+  - destruct (N.eqb_spec n' n0); [contradiction|exact IH].
+  - cbn. destruct (n' =? n0); [reflexivity|exact IH]. Qed.
+Print Assumptions provider_stores_independent.
+
+Example provider_nonvacuous :
+  prun false (mem_step true) []
+    [PSetCfg 1 [1]; POpen 0; POpen 1; PSetCfg 1 [1; 2]; PGetCfg 1; PGetCfg 2; POpen 2; PStore 2 (Put 1 1 []); PStore 1 (Get 1);
+     PStore 2 (Get 1); PGetOpen; PStoreClose 1; PGetCfg 1; PGetOpen; PSetCfg 2 [9]; PClose; PGetOpen]
+  = [PNoStore; PErr; PDone; PDone; PCfg [1; 2]; PNoStore; PDone; POut ODone; POut ONotFound; POut (OVal 1); POpenSet [1; 2];
+     PDone; PNoStore; POpenSet [2]; PErr; PDone; POpenSet []].
+Proof. vm_compute. reflexivity. Qed.
+
 (* ---------- GetBulk: arguments and positions ---------- *)
 Theorem getbulk_contract : forall pers a ks,
   snd (spec_step pers a (GetBulk ks)) =
